@@ -1,5 +1,8 @@
 """Base class of the cache properties: shared correspondence (gate/synctest harness vs. the extracted machine)."""
-from . import cachegen
+import os
+import re
+
+from . import cachegen, core
 from .prop import Prop
 
 
@@ -54,3 +57,42 @@ class CacheProp(Prop):
                 st["closes"] += o == "close"
         st["profiles"] = prof
         return st
+
+
+    # ---- real-concurrency search (not proof): TestVerifStress, optionally under the Go race detector ----
+    stress_kinds = ()      # which findings of the stress run belong to this property
+    stress_race = False
+
+    def extra(self, ctx):
+        if not self.stress_kinds:
+            return []
+        race = self.stress_race or ctx.tier == "thorough"
+        if race:
+            with core.Lock():
+                ok, log, _ = core.build_harness("root", race=True)
+            if not ok:
+                raise RuntimeError("race harness does not build: " + log[-800:])
+        if ctx.tier == "quick":
+            rounds, ops = (5, 700) if self.stress_race else (4, 500)
+        else:
+            rounds, ops = 60, 2500
+        env = {"VERIF_STRESS": "1", "VERIF_SEED": str(ctx.seed + 1), "VERIF_STRESS_ROUNDS": str(rounds),
+               "VERIF_STRESS_OPS": str(ops)}
+        rc, out = core.run_harness("root", os.devnull, os.devnull, race=race, timeout=900 if ctx.tier == "quick" else 3000,
+                                   run="^TestVerifStress$", extra_env=env)
+        m = re.search(r"stress ok rounds=(\d+) ops=(\d+)", out)
+        ctx.notes.append("concurrent stress%s: %s (rc=%d)" % (" under -race" if race else "", m.group(0) if m else "no ok line", rc))
+        fails = []
+        hdr = "go test%s -run TestVerifStress with %s\n" % (" -race" if race else "", " ".join("%s=%s" % kv for kv in sorted(env.items())))
+        if "race" in self.stress_kinds and "DATA RACE" in out:
+            i = out.index("WARNING: DATA RACE") if "WARNING: DATA RACE" in out else out.index("DATA RACE")
+            fails.append(("data race reported by the Go race detector in the concurrent stress", hdr + out[i:i + 3000]))
+        for kind in self.stress_kinds:
+            tag = "stress %s:" % kind
+            if kind != "race" and tag in out:
+                i = out.index(tag)
+                fails.append(("concurrent stress: " + out[i:i + 300].splitlines()[0], hdr + out[max(0, i - 200):i + 2500]))
+        if not fails and "hang" in self.stress_kinds and (rc != 0 or not m) and not re.search(r"stress (\w+):", out):
+            fails.append(("concurrent stress did not complete (rc=%d)" % rc, hdr + out[-3000:]))
+        pid = self.pid
+        return [(f, "# property %s\n# %s\n" % (pid, f) + "".join("# " + l + "\n" for l in b.splitlines())) for f, b in fails]
